@@ -177,12 +177,12 @@ func goFlagBool(s string) (bool, bool) {
 }
 
 type c18cfg struct {
-	flagScan, envScan   optVal
-	flagPaths, envPaths optVal
+	flagScan, envScan     optVal
+	flagPaths, envPaths   optVal
 	flagChecks, envChecks optVal
-	bareScanFlag        bool // "-config.scan-tests" without value
-	dashes              string
-	noTestFile          bool // run on the copy of the probe without p_test.go (go/packages then loads no test binaries: ~50x cheaper)
+	bareScanFlag          bool // "-config.scan-tests" without value
+	dashes                string
+	noTestFile            bool // run on the copy of the probe without p_test.go (go/packages then loads no test binaries: ~50x cheaper)
 }
 
 func (c c18cfg) resolve() gen.Cfg {
